@@ -35,3 +35,11 @@ open CalmVerif.Props.C02
 #check @kf02f_witness
 #print axioms minify_keeps_required_separators
 #check @minify_keeps_required_separators
+#print axioms first_last_closed_minify
+#check @first_last_closed_minify
+#print axioms minify0_stream_typed
+#check @minify0_stream_typed
+#print axioms minify1_stream_typed
+#check @minify1_stream_typed
+#print axioms direct_adjacent_safe_minify_partial
+#check @direct_adjacent_safe_minify_partial
